@@ -14,9 +14,11 @@ T = {
         "last step, the last step) with prefix ++ [last] == actions, file name peeled first, header and absoluteness preserved, the receiver "
         "unchanged; Context.create_initial_state hands the injected input value unchanged to the first action (and nothing when none is given); "
         "State.with_data keeps the data as given; CommandExecutable.parse_argv hands the textual arguments of an action to the argument parser "
-        "unchanged and in order, followed only by keyword values and declared defaults, and returns only when the parser consumed every argument. "
-        "That each step applies the registered function to the predecessor's value and the converted "
-        "arguments, left to right, is NOT proved: it is explored by a direct reference interpreter Sem (39-command vocabulary, every argument "
+        "unchanged and in order, followed only by keyword values and declared defaults, and returns only when the parser consumed every argument; CommandExecutable.__call__ (one pipeline step) applies the registered "
+        "function exactly once to the predecessor's state or value followed by exactly the converted arguments and makes what it returns the "
+        "result (a State as it is, anything else as the data of the successor state); evaluate_parameter evaluates every occurrence of a link "
+        "argument once. That the argument parsers convert each text according to annotation / default, that evaluate_action hands the expanded "
+        "parameters to the step in order, and the end-to-end composition is NOT proved: it is explored by a direct reference interpreter Sem (39-command vocabulary, every argument "
         "shape, links to depth 2/3, file names, injected inputs incl. falsy ones, extra parameters; ~7.5k queries quick) and by a run-time "
         "contract on command_metadata_from_callable / the argument parsers (annotation wins over the default's type; 170 cases).",
         "Category is exploration because the deciding part (composition semantics of evaluate_action / evaluate_parameter / parse_argv) is "
